@@ -9,6 +9,7 @@ mod fam_bank;
 mod fam_curve;
 mod fam_fees;
 mod fam_fx;
+mod fam_liq;
 mod fam_oracle;
 mod fam_health;
 mod fam_tx;
@@ -77,6 +78,7 @@ fn main() {
                 "account" => fam_account::gen(&mut rng, n, &mut out),
                 "fees" => fam_fees::gen(&mut rng, n, &mut out),
                 "tx" => fam_tx::gen(&mut rng, n, &mut out),
+                "liq" => fam_liq::gen(&mut rng, n, &mut out),
                 "oracle" => fam_oracle::gen(&mut rng, n, &mut out),
                 "health" => fam_health::gen(&mut rng, n, &mut out),
                 "panic" => fam_panic::gen(&mut rng, n, &mut out),
